@@ -415,3 +415,236 @@ def n_dirstamp(inp):
     if 'layout' in inp:
         return dirstamp_case(inp['layout'], inp['stamps'], inp['cached'])
     return False, 'abstract file system model: see the small-scope search'
+
+
+# ------------------------------------------------------------------ more native readings (small-scope searches)
+def _search(qual):
+    def deco(f):
+        SEARCH[qual] = f
+        return f
+    return deco
+
+
+class _Rec3:
+    """user-defined check with the old three-argument call"""
+    def __init__(self, value=True):
+        self.value, self.calls = value, []
+
+    def __call__(self, target, creds, enforcer):
+        self.calls.append((target, creds, enforcer))
+        return self.value
+
+
+class _Rec4:
+    def __init__(self, value=True):
+        self.value, self.calls = value, []
+
+    def __call__(self, target, creds, enforcer, current_rule=None):
+        self.calls.append((target, creds, enforcer, current_rule))
+        return self.value
+
+
+class _Rec3Sub4(_Rec4):
+    """three-argument subclass of a four-argument check (and the reverse below): the arity belongs to the object
+    called, not to an ancestor evaluated earlier"""
+    def __call__(self, target, creds, enforcer):
+        self.calls.append((target, creds, enforcer))
+        return self.value
+
+
+class _Rec4Sub3(_Rec3):
+    def __call__(self, target, creds, enforcer, current_rule=None):
+        self.calls.append((target, creds, enforcer, current_rule))
+        return self.value
+
+
+@_search('_checks:_check')
+def _check_search():
+    """_check forwards (target, creds, enforcer) unchanged, adds current_rule exactly for four-argument checks,
+    returns the check's value and lets its exception through"""
+    from oslo_policy import _checks
+    target, creds, enf = {'t': 1}, {'roles': ['r']}, object()
+    for order in ((_Rec4, _Rec3Sub4, _Rec3, _Rec4Sub3), (_Rec3, _Rec4Sub3, _Rec4, _Rec3Sub4),
+                  (_Rec3Sub4, _Rec4Sub3, _Rec3, _Rec4)):
+        for cls in order:
+            for value in (True, False, 'x', None):
+                for cur in ('policy:name', None):
+                    c = cls(value)
+                    try:
+                        got = ('ret', _checks._check(c, target, creds, enf, cur))
+                    except Exception as e:      # noqa
+                        got = ('exc', type(e).__name__)
+                    four = cls in (_Rec4, _Rec4Sub3)
+                    want_call = (target, creds, enf, cur) if four else (target, creds, enf)
+                    desc = '%s(value=%r) evaluated with current_rule=%r after %s' % (
+                        cls.__name__, value, cur, [k.__name__ for k in order[:order.index(cls)]])
+                    if got != ('ret', value):
+                        return ({'class': cls.__name__, 'value': value, 'current_rule': cur}, '%s: _check gave %r' % (desc, got))
+                    if len(c.calls) != 1 or any(a is not b for a, b in zip(c.calls[0], want_call)) or len(c.calls[0]) != len(want_call):
+                        return ({'class': cls.__name__, 'value': value, 'current_rule': cur},
+                                '%s: the check was called with %r' % (desc, c.calls))
+    # built-in checks: same object identity of the arguments, current_rule passed on
+    rec = _Rec4(True)
+    _checks._check(_checks.NotCheck(rec), target, creds, enf, 'p')
+    if not rec.calls or rec.calls[0][3] != 'p' or rec.calls[0][0] is not target:
+        return ({'class': 'NotCheck'}, 'NotCheck did not forward the arguments unchanged: %r' % (rec.calls,))
+    return None
+
+
+@_search('_checks:OrCheck.add_check')
+def _add_check_search():
+    from oslo_policy import _checks
+    for cls in (_checks.OrCheck, _checks.AndCheck):
+        for n in range(0, 3):
+            base = [_checks.RoleCheck('role', 'r%d' % i) for i in range(n)]
+            for new in (_checks.RoleCheck('role', 'r0'), _checks.TrueCheck(), base[0] if base else _checks.FalseCheck()):
+                c = cls(list(base))
+                before = list(c.rules)
+                r = c.add_check(new)
+                if r is not c or len(c.rules) != len(before) + 1 or c.rules[-1] is not new or \
+                        any(a is not b for a, b in zip(c.rules, before)):
+                    return ({'class': cls.__name__, 'n': n, 'new': str(new)},
+                            '%s.add_check(%s) on %s gave %s (must append exactly that object and return self)' % (
+                                cls.__name__, new, [str(x) for x in before], [str(x) for x in c.rules]))
+    for n in range(1, 4):
+        base = [_checks.RoleCheck('role', 'r%d' % i) for i in range(n)]
+        c = _checks.OrCheck(list(base))
+        r = c.pop_check()
+        if r[0] is not c or r[1] is not base[-1] or len(c.rules) != n - 1 or any(a is not b for a, b in zip(c.rules, base)):
+            return ({'n': n}, 'OrCheck.pop_check on %d alternatives gave %r' % (n, r))
+    return None
+
+
+SEARCH['_checks:AndCheck.add_check'] = _add_check_search
+SEARCH['_checks:OrCheck.pop_check'] = _add_check_search
+
+
+@_search('policy:Rules.__missing__')
+def _missing_search():
+    from oslo_policy import policy, _checks
+    T = _checks.TrueCheck()
+    for rules in ({}, {'default': T}, {'a': T}, {'a': T, 'default': T}, {'': T}):
+        for dflt in (None, 'default', 'zzz', '', T, 'a'):
+            for q in ('a', 'b', 'default', ''):
+                if q in rules:
+                    continue
+                R = policy.Rules(dict(rules), dflt)
+                try:
+                    got = ('ret', R[q])
+                except KeyError:
+                    got = ('exc', 'KeyError')
+                except Exception as e:      # noqa
+                    got = ('exc', type(e).__name__)
+                if isinstance(dflt, _checks.BaseCheck):
+                    want = ('ret', dflt)
+                elif not dflt or q == dflt or dflt not in rules:
+                    want = ('exc', 'KeyError')
+                else:
+                    want = ('ret', rules[dflt])
+                if got[0] != want[0] or (got[0] == 'ret' and got[1] is not want[1]) or (got[0] == 'exc' and got[1] != want[1]):
+                    return ({'rules': sorted(rules), 'default_rule': str(dflt), 'query': q},
+                            'Rules(%s, default_rule=%r)[%r] gave %r, lookup() says %r' % (sorted(rules), dflt, q, got, want))
+                if dict(R) != rules:
+                    return ({'rules': sorted(rules), 'default_rule': str(dflt), 'query': q}, 'the lookup changed the store')
+    return None
+
+
+@_search('_checks:RuleCheck.__call__')
+def _rulecheck_search():
+    from oslo_policy import policy, _checks
+
+    class E:
+        pass
+    for rules, dflt in (({'a': '@'}, None), ({'a': '!'}, None), ({}, None), ({'default': '@'}, 'default'),
+                        ({'a': 'role:x'}, 'default'), ({'default': '!', 'a': '@'}, 'default')):
+        for name in ('a', 'missing'):
+            e = E()
+            e.rules = policy.Rules.from_dict(rules, dflt)
+            for roles in ([], ['x']):
+                try:
+                    got = ('ret', _checks.RuleCheck('rule', name)({}, {'roles': roles}, e, 'cur'))
+                except Exception as ex:     # noqa
+                    got = ('exc', type(ex).__name__)
+                try:
+                    want = ('ret', bool(_checks._check(e.rules[name], {}, {'roles': roles}, e, 'cur')))
+                except KeyError:
+                    want = ('ret', False)
+                if got[0] != 'ret' or bool(got[1]) != want[1]:
+                    return ({'rules': rules, 'default_rule': dflt, 'name': name, 'roles': roles},
+                            'rule:%s over %r (default %r) with roles %r gave %r, its definition gives %r' % (
+                                name, rules, dflt, roles, got, want))
+    return None
+
+
+@_search('policy:Enforcer.set_rules')
+def _set_rules_search():
+    from oslo_policy import policy, _checks
+    from oslo_config import cfg
+    import logging
+    logging.disable(logging.CRITICAL)
+    for dflt in (None, 'default', 'zzz', _checks.TrueCheck()):
+        for first in ({'default': '@', 'a': 'role:x'}, {'a': '!'}, {}):
+            for new in ({'default': '!', 'b': '@'}, {'b': '@'}, {}):
+                for overwrite in (True, False):
+                    conf = cfg.ConfigOpts()
+                    conf([], project='verif_native', default_config_files=[], default_config_dirs=[])
+                    e = policy.Enforcer(conf, rules=policy.Rules.from_dict(first), default_rule=dflt, use_conf=False)
+                    old_store = e.rules
+                    old_items = dict(old_store)
+                    newr = policy.Rules.from_dict(new)
+                    e.set_rules(newr, overwrite=overwrite, use_conf=False)
+                    desc = 'default_rule=%r store=%r set_rules(%r, overwrite=%r)' % (str(dflt), first, new, overwrite)
+                    want = dict(newr) if overwrite else dict(old_items, **dict(newr))
+                    if dict(e.rules) != want or any(e.rules[k] is not want[k] for k in want):
+                        return ({'default_rule': str(dflt), 'first': first, 'new': new, 'overwrite': overwrite},
+                                '%s: store is %r' % (desc, {k: str(v) for k, v in e.rules.items()}))
+                    if overwrite and (e.rules is old_store or e.rules.default_rule is not e.default_rule
+                                      and e.rules.default_rule != e.default_rule or dict(old_store) != old_items):
+                        return ({'default_rule': str(dflt), 'first': first, 'new': new, 'overwrite': overwrite},
+                                '%s: overwrite must publish a fresh store carrying the enforcer\'s default_rule %r unchanged '
+                                '(store default_rule %r) and leave the old store alone' % (desc, e.default_rule, e.rules.default_rule))
+                    if not overwrite and e.rules is not old_store:
+                        return ({'default_rule': str(dflt), 'first': first, 'new': new, 'overwrite': overwrite},
+                                '%s: an update must keep the store object' % desc)
+                    if e.use_conf is not False or e._need_check_rule is not True:
+                        return ({'default_rule': str(dflt)}, '%s: flags not recorded' % desc)
+    for bad in ([], 'x', None, 3):
+        conf = cfg.ConfigOpts()
+        conf([], project='verif_native', default_config_files=[], default_config_dirs=[])
+        e = policy.Enforcer(conf, use_conf=False)
+        try:
+            e.set_rules(bad)
+            return ({'rules': repr(bad)}, 'set_rules(%r) did not raise TypeError' % (bad,))
+        except TypeError:
+            pass
+    return None
+
+
+@_search('_parser:_parse_check')
+def _parse_check_search():
+    from oslo_policy import _parser, _checks
+    import logging
+    logging.disable(logging.CRITICAL)
+    cases = ['@', '!', 'role:admin', 'rule:x', 'a:b', "'Member':%(role.name)s", '"x y":z', 'True:%(t)s', '42:%(n)s',
+             'None:None', 'a.b.c:%(d)s', 'http://h/p', 'https://h:1/p?q=%(q)s', 'nocolon', ':x', 'x:', 'a:b:c', '1.0:%(f)s',
+             "('a',):x", '[1]:x', 'role:%(r)s', 'is_admin:True']
+    for text in cases:
+        try:
+            c = _parser._parse_check(text)
+        except Exception as e:      # noqa
+            return ({'rule': text}, '_parse_check(%r) raised %s' % (text, type(e).__name__))
+        if text == '@':
+            ok_ = type(c) is _checks.TrueCheck
+        elif text == '!' or ':' not in text:
+            ok_ = type(c) is _checks.FalseCheck
+        else:
+            kind, match = text.split(':', 1)
+            cls = _checks.registered_checks.get(kind, _checks.registered_checks.get(None))
+            exts = _checks.get_extensions() if hasattr(_checks, 'get_extensions') else {}
+            if kind in exts:
+                cls = exts[kind]
+            ok_ = type(c) is cls and c.kind == kind and c.match == match and str(c) == text
+        if not ok_:
+            return ({'rule': text}, '_parse_check(%r) built %s with fields %r, printing %r' % (
+                text, type(c).__name__, getattr(c, '__dict__', {}), str(c)))
+    return None
